@@ -6,6 +6,7 @@ import (
 	"fmt"
 	"math/rand"
 	"sort"
+	"time"
 
 	"verif/internal/core"
 	"verif/internal/eng"
@@ -101,5 +102,81 @@ func c04DistinctStream(ctx *core.Ctx) {
 		}
 		ctx.Count("distinct.batches_checked", 1)
 		ctx.Case(c.SQL+core.J(c.Rows), len(want) >= 2, nil)
+	})
+}
+
+// c04late: event-time sessions with ALLOWEDLATENESS.  Late rows whose key text is a prefix (or the empty text,
+// or a suffix) of another group's key arrive inside that group's already delivered session: whatever the
+// engine does with them (the late-row rules are C02's subject), no result row may aggregate a row of another
+// tuple.
+func c04LateStream(ctx *core.Ctx) {
+	n := ctx.N(12, 300)
+	ctx.Cases("c04late", n, workers(), func(i int, r *rand.Rand) {
+		c := &c04DistinctCase{CaseRef: core.CaseRef{Stream: "c04late", Index: i}}
+		c.SQL = "SELECT k1, count(*) AS c, collect(id) AS ids FROM stream GROUP BY k1, SessionWindow('1s') WITH (TIMESTAMP='ts', TIMEUNIT='ms', ALLOWEDLATENESS='10s')"
+		fam := pick(r, [][]string{{"ab", "a", "", "abc"}, {"10", "1", "0", "100"}, {"a|b", "a", "a|", "|b"}, {"x\\y", "x", "x\\", "y"}})
+		id := 0
+		add := func(k string, ts int64) {
+			id++
+			c.Rows = append(c.Rows, Row{"id": id, "k1": k, "ts": baseTs + ts})
+		}
+		t := int64(1000)
+		for round := 0; round < 2+r.Intn(3); round++ {
+			owner := fam[0]
+			if r.Intn(3) == 0 {
+				owner = pick(r, fam)
+			}
+			for j := 0; j < 2+r.Intn(3); j++ { // the owner's session
+				add(owner, t+int64(j)*200)
+			}
+			add("zz", t+2600) // passes the session's end: it fires and stays open for late rows
+			for j := 0; j < 1+r.Intn(3); j++ {
+				add(pick(r, fam), t+100+int64(r.Intn(500))) // late rows of look-alike keys inside that session
+			}
+			t += 6000
+		}
+		rows := append(append([]Row{}, c.Rows...), Row{"id": -1, "ts": baseTs + t + 60000, "k1": "__sentinel__"})
+		attrs := map[string]string{"window": "session", "ncols": "1", "key_shape": "prefixes_of_each_other", "allowed_lateness": "yes"}
+		viol := func(kind, detail string) {
+			ctx.Violate(core.Violation{Kind: kind, Attrs: attrs, Detail: detail + "\n  sql: " + c.SQL, Case: c})
+		}
+		// a short pause after each row that moves the watermark: the session is delivered before its late rows arrive
+		res := runWindow(c.SQL, rows, runOpts{Opts: eng.Opts{}, Expect: -1, PaceFn: func(i int) {
+			if k, _ := rows[i]["k1"].(string); k == "zz" {
+				time.Sleep(80 * time.Millisecond)
+			}
+		}})
+		if res.Err != nil {
+			viol("groupby.execute_error", res.Err.Error())
+			return
+		}
+		if res.Overloaded || !res.Quiescent {
+			ctx.Inconclusive("c04late: overload or not quiescent")
+			return
+		}
+		keyOf := map[int]string{}
+		for _, row := range c.Rows {
+			keyOf[row["id"].(int)] = row["k1"].(string)
+		}
+		checked := 0
+		for _, d := range res.Dels {
+			if len(d.Rows) != 1 {
+				viol("groupby.window_key_collision", fmt.Sprintf("a session window delivered %d result rows in one batch (sessions are kept per key, one expected): a row was placed in the session of another key: %s", len(d.Rows), core.J(d.Rows)))
+				return
+			}
+			for _, out := range d.Rows {
+				k, _ := out["k1"].(string)
+				ids, _ := idList(out["ids"])
+				for _, x := range ids {
+					if kk, ok := keyOf[x]; ok && kk != k {
+						viol("groupby.different_values_merged", fmt.Sprintf("row id=%d has key %q but is aggregated in the result of key %q (delivery %d: %s)", x, kk, k, d.Index, core.J(d.Rows)))
+						return
+					}
+				}
+				checked++
+			}
+		}
+		ctx.Count("late.result_rows_checked", int64(checked))
+		ctx.Case(c.SQL+core.J(c.Rows), checked >= 3, nil)
 	})
 }
